@@ -238,11 +238,20 @@ func run(ctx *Ctx) *Result {
 		}
 		var again []Case
 		for _, i := range retry {
-			again = append(again, cases[i], bannerFree(cases[i]))
+			c1, c2 := cloneCase(cases[i]), bannerFree(cases[i])
+			c1.Patient, c2.Patient = true, true
+			again = append(again, c1, c2)
 		}
-		outs2 := runAll(again)
+		// serially (two workers at most), with longer time-outs
+		outs2 := runAllN(again, 2)
 		for k, i := range retry {
 			judge(ctx, res, drv, &cases[i], &outs2[2*k], &outs2[2*k+1], true)
+		}
+		// an environment failure that reproduces serially with long time-outs on many cases is
+		// systematic (e.g. the login itself is broken): that is a verdict, not an excuse
+		if n := res.Distribution["inconclusive:environment"] + res.Distribution["inconclusive:environment (baseline)"]; n >= 8 {
+			res.Disagree("dialogue-systematic", map[string]any{"inconclusive": n},
+				"the dialogue does not get through its login / the process environment fails, reproducibly on "+fmt.Sprint(n)+" serial re-runs", "")
 		}
 	}
 	return res
@@ -353,11 +362,31 @@ func judge(ctx *Ctx, res *Result, drv *Nadrv, c *Case, o *WOutcome, base *WOutco
 		res.Count("theorem-domain:unclean-script")
 	}
 	res.TracesVsImpl++
+	if impl != model && envFailure(o) {
+		// pty exhaustion, login time-out under load, dead worker: not a statement about the code.
+		// First pass: re-examined serially with long time-outs; still failing then: inconclusive.
+		if again {
+			res.Count("inconclusive:environment")
+			res.Notes = append(res.Notes, "inconclusive (environment): "+firstLine(o.Stderr+o.Panic))
+		} else {
+			res.Disagree("environment", in, impl, model)
+		}
+		return
+	}
 	if impl != model {
 		// the tie is broken here; the oracle below still looks for a concrete failing input
 		res.Disagree("dialogue", in, impl, model)
 	}
 	if strings.HasPrefix(impl, "BAD-LOGIN") || strings.HasPrefix(impl, "PANIC") {
+		return
+	}
+	if base != nil && envFailure(base) {
+		// the baseline run itself did not get through: nothing to compare with
+		if again {
+			res.Count("inconclusive:environment (baseline)")
+		} else {
+			res.Disagree("environment", in, "baseline: "+implView(base), "")
+		}
 		return
 	}
 	if o.Status == 0 {
@@ -523,4 +552,31 @@ func judgeLate(ctx *Ctx, res *Result, drv *Nadrv, c *Case, o *WOutcome, base *WO
 		res.Fail(map[string]any{"pred": "late_fresh_prompt_missed_by_tryprompt"},
 			"the fresh prompt behind a banner arrives late, TryPrompt (time-out 0) misses it, the stale prompt desynchronises the dialogue: "+strings.SplitN(impl, "\t", 2)[0], in)
 	}
+}
+
+// envFailure: the dialogue did not get through its login, or the process ran out of ptys / file
+// descriptors, or the worker died — failures of the test environment, not of the code under test.
+func envFailure(o *WOutcome) bool {
+	if _, ok := applyLines(o.Lines); !ok {
+		return true
+	}
+	all := o.Stderr + o.Panic
+	for _, m := range []string{"/dev/ptmx", "no space left on device", "too many open files", "worker failed",
+		"while waiting for login prompt", "resource temporarily unavailable", "cannot allocate memory"} {
+		if strings.Contains(all, m) {
+			return true
+		}
+	}
+	return false
+}
+
+func firstLine(s string) string {
+	s = strings.TrimSpace(s)
+	if i := strings.IndexByte(s, '\n'); i >= 0 {
+		s = s[:i]
+	}
+	if len(s) > 200 {
+		s = s[:200]
+	}
+	return s
 }
